@@ -26,7 +26,8 @@ Inductive kind := KWorker | KQuery | KStop (hard : bool) | KLoad.
 
 Inductive verb :=
 | VWorker            (* worker_request, accepted by ConfigState::dispatch *)
-| VRejected          (* refused before any scatter: dispatch error, state file missing *)
+| VRejected (burn : nat)  (* refused before any scatter: dispatch error, state file missing; [burn] task ids
+                        were allocated and cancelled on the way (ReloadConfiguration: one) *)
 | VQuery             (* query_clusters, query_metrics, status *)
 | VLocal             (* answered from the main process' own state *)
 | VUnserved          (* no request_type, LaunchWorker, ReturnListenSockets *)
@@ -116,13 +117,17 @@ Fixpoint scatter_many (h : hub) (rq tid : nat) (idxs : list nat) : hub * list ou
 Definition bump_rq (h : hub) : hub :=
   mkHub (workers h) (tasks h) (in_flight h) (now h) (next_task h) (S (next_rq h)) (stopping h) (timeout h) (gone h).
 
+(** [Server::new_task] followed by [Server::cancel_task]: the id is spent *)
+Definition burn_ids (h : hub) (b : nat) : hub :=
+  mkHub (workers h) (tasks h) (in_flight h) (now h) (next_task h + b) (next_rq h) (stopping h) (timeout h) (gone h).
+
 (** [Server::handle_client_request] *)
 Definition client_request (h : hub) (c : nat) (v : verb) : hub * list out :=
   let rq := next_rq h in
   let '(h', o) :=
     match v with
     | VLocal => (h, [OFinal c rq SOk])
-    | VRejected => (h, [OFinal c rq SFailure])
+    | VRejected b => (burn_ids h b, [OFinal c rq SFailure])
     | VUnserved => (h, if unserved_answered then [OFinal c rq SFailure] else [])
     | VWorker =>
       let '(h1, tid) := new_task h c KWorker tmo_worker in
@@ -191,7 +196,7 @@ Definition verdict (k : kind) (errors : nat) (timed_out : bool) : list status :=
   | KWorker => if worker_fails errors timed_out then [SFailure] else [SOk]
   | KQuery => [SOk]
   | KStop hard =>
-    if stop_fails timed_out hard
+    if stop_fails timed_out hard errors
     then SFailure :: (if stop_ok_after_failure then [SOk] else [])
     else [SOk]
   | KLoad => if load_ok errors then [SOk] else [SFailure]
@@ -221,13 +226,28 @@ Definition sweep (h : hub) : hub * list out :=
          (stopping h || existsb (fun t => is_stop (t_kind t)) fin) (timeout h) (gone h),
    outs).
 
+(** [CommandHub::fail_requests_in_flight_to]: one failure response for every
+    request still in flight to a worker whose channel closed *)
+Fixpoint fail_all (h : hub) (w : nat) (rs : list rid) : hub * list out :=
+  match rs with
+  | [] => (h, [])
+  | r :: rest =>
+    let '(h1, o1) := worker_response h w (Some r) SFailure in
+    let '(h2, o2) := fail_all h1 w rest in
+    (h2, o1 ++ o2)
+  end.
+
+Definition orphans (h : hub) (w : nat) : list rid :=
+  map fst (filter (fun e => Nat.eqb (fst (fst (fst e))) w) (in_flight h)).
+
 Definition apply_event (h : hub) (e : event) : hub * list out :=
   match e with
   | EClient c v => client_request h c v
   | EResp w r st => worker_response h w r st
   | EWorkerClosed w =>
-    (mkHub (map (fun ws => if Nat.eqb (fst ws) w then (fst ws, true) else ws) (workers h))
-           (tasks h) (in_flight h) (now h) (next_task h) (next_rq h) (stopping h) (timeout h) (gone h), [])
+    let h1 := mkHub (map (fun ws => if Nat.eqb (fst ws) w then (fst ws, true) else ws) (workers h))
+                    (tasks h) (in_flight h) (now h) (next_task h) (next_rq h) (stopping h) (timeout h) (gone h) in
+    if close_fails_in_flight then fail_all h1 w (orphans h1 w) else (h1, [])
   | EClientClosed c =>
     (mkHub (workers h) (tasks h) (in_flight h) (now h) (next_task h) (next_rq h) (stopping h)
            (timeout h) (c :: gone h), [])
